@@ -59,6 +59,14 @@ struct PluginSettings {
     rewriteDef: Option<PathBuf>,
 }
 
+/// True if lowercasing changes the character.
+/// Unlike `char::is_uppercase` this also covers titlecase letters (e.g. U+01C5),
+/// which have a lowercase mapping but are not uppercase.
+#[inline]
+fn needs_lowercase(ch: char) -> bool {
+    ch.to_lowercase().ne(std::iter::once(ch))
+}
+
 impl DefaultInputTextPlugin {
     /// Loads rewrite definition
     ///
@@ -196,7 +204,7 @@ impl DefaultInputTextPlugin {
             }
 
             // 2. handle normalization
-            let need_lowercase = ch.is_uppercase();
+            let need_lowercase = needs_lowercase(ch);
             let need_nkfc = !self.should_ignore(ch)
                 && match is_nfkc_quick(std::iter::once(ch)) {
                     IsNormalized::Yes => false,
@@ -283,7 +291,7 @@ impl InputTextPlugin for DefaultInputTextPlugin {
             _ => true,
         };
 
-        let need_lowercase = chars.iter().any(|c| c.is_uppercase());
+        let need_lowercase = chars.iter().any(|c| needs_lowercase(*c));
 
         if need_nkfc || need_lowercase {
             self.replace_slow(buffer, edit)
